@@ -53,7 +53,7 @@ class Case:
         return gates.nlist([self.dims[w] for w in order])
 
 
-FAST = ['XPow', 'YPow', 'ZPow', 'HPow', 'CZPow', 'CXPow', 'SwapPow']
+FAST = gates.FAST
 
 
 def random_case(rng, max_wires=5, max_ops=14, qudits=True, families=None, min_wires=1):
